@@ -190,7 +190,7 @@ def shard(ctx, n, sub):
 
 
 def main(ctx):
-    n = ctx.pick(14, 320)
+    n = ctx.pick(14, 2500)
     ctx.shards("shard", [{"n": n, "sub": s} for s in range(16)], timeout=ctx.pick(600, 3400))
     ctx.require("jobs_compared", 500)
     ctx.require("expression_valued_options_checked", 20)
